@@ -9,9 +9,28 @@ import PyIpmi.Model.Api.Hpm
 namespace PyIpmi.Model.Api
 open PyIpmi PyIpmi.Spec.Bmc
 
-/-- `shippedLed` / `shippedPort` select the as-shipped variant of the operations that have a known defect
-(get_led_state, get_port_state); the harness probes the real code to choose. -/
-def opOfV (shippedLed shippedPort : Bool) (c : Call) : Exchange :=
+/-- which variant of the operations with a known defect the tree under test carries: `true` = AS SHIPPED,
+`false` = INTENDED (the default; what the theorems `model_refines_oracle` … speak about).  The harness probes
+the real code for each flag (harness/props/c07.py `probe_variants`) so that the correspondence uses the model
+of the code that is really there: silent on the repaired tree, firing again if a defect returns. -/
+structure Variant where
+  /-- l: `LedState._from_response` override durations from the wrong fields (a3c289f) -/
+  led : Bool := false
+  /-- p: `get_port_state` UnboundLocalError without link descriptor (9c86932) -/
+  port : Bool := false
+  /-- r: `get_lan_config_param(revision_only=1)` addresses channel 0 and returns `rsp.data` (fixes/C07-8) -/
+  lanRevision : Bool := false
+  /-- b: `RollbackStatus._from_rsp` drops `rsp.rollback_status` (fixes/C07-9) -/
+  rollback : Bool := false
+  /-- u: `get_sensor_reading` builds `states` although reading/state is flagged unavailable (fixes/C07-10) -/
+  sensorUnavailable : Bool := false
+  deriving Repr, DecidableEq
+
+def Variant.ofLetters (v : String) : Variant :=
+  { led := v.contains 'l', port := v.contains 'p', lanRevision := v.contains 'r', rollback := v.contains 'b',
+    sensorUnavailable := v.contains 'u' }
+
+def opOfV (var : Variant) (c : Call) : Exchange :=
   match c with
   | .getDeviceId => api_get_device_id
   | .getDeviceGuid => api_get_device_guid
@@ -29,7 +48,8 @@ def opOfV (shippedLed shippedPort : Bool) (c : Call) : Exchange :=
   | .getBootPersistency => api_get_boot_persistency
   | .getBootDevice => api_get_boot_device
   | .setBootOptions d e p => api_set_boot_options d e p
-  | .getLanParam a b c d r => api_get_lan_config_param a b c d r
+  | .getLanParam a b c d r =>
+    if var.lanRevision then api_get_lan_config_param_shipped a b c d r else api_get_lan_config_param a b c d r
   | .setLanParam a b d => api_set_lan_config_param a b d
   | .getIp c => api_get_ip_address c
   | .setIp ip c => api_set_ip_address ip c
@@ -45,7 +65,7 @@ def opOfV (shippedLed shippedPort : Bool) (c : Call) : Exchange :=
   | .setUserPassword u p => api_set_user_password u p
   | .enableUser u => api_enable_user u
   | .disableUser u => api_disable_user u
-  | .getSensorReading n l => api_get_sensor_reading n l
+  | .getSensorReading n l => if var.sensorUnavailable then api_get_sensor_reading_shipped n l else api_get_sensor_reading n l
   | .setSensorThresholds n l v => api_set_sensor_thresholds n l v
   | .getSensorThresholds n l => api_get_sensor_thresholds n l
   | .rearmSensorEvents n => api_rearm_sensor_events n
@@ -59,13 +79,13 @@ def opOfV (shippedLed shippedPort : Bool) (c : Call) : Exchange :=
   | .getFanSpeedProperties f => api_get_fan_speed_properties f
   | .setFanLevel f l => api_set_fan_level f l
   | .getFanLevel f => api_get_fan_level f
-  | .getLedState f l => if shippedLed then api_get_led_state_shipped f l else api_get_led_state f l
+  | .getLedState f l => if var.led then api_get_led_state_shipped f l else api_get_led_state f l
   | .setLedState f l c => api_set_led_state f l c
   | .setFruActivation f on => api_set_fru_activation f on
   | .setFruActivationPolicy f c => api_set_fru_activation_policy f c
   | .fruLockNamed i f => api_fru_lock_named i f
   | .setPortState i c p => api_set_port_state i c p
-  | .getPortState c i => if shippedPort then api_get_port_state_shipped c i else api_get_port_state c i
+  | .getPortState c i => if var.port then api_get_port_state_shipped c i else api_get_port_state c i
   | .getPmGlobalStatus => api_get_pm_global_status
   | .getPowerChannelStatus st => api_get_power_channel_status st
   | .sendChannelPower c e l p b => api_send_channel_power c e l p b
@@ -75,14 +95,14 @@ def opOfV (shippedLed shippedPort : Bool) (c : Call) : Exchange :=
   | .getUpgradeStatus => api_get_upgrade_status
   | .getTargetUpgradeCapabilities => api_get_target_upgrade_capabilities
   | .querySelftestResults => api_query_selftest_results
-  | .queryRollbackStatus => api_query_rollback_status
+  | .queryRollbackStatus => if var.rollback then api_query_rollback_status_shipped else api_query_rollback_status
 
 /-- the operation as modelled from the (fixed) code under test -/
-def opOf (c : Call) : Exchange := opOfV false false c
+def opOf (c : Call) : Exchange := opOfV {} c
 
 /-- one API call against the BMC: BMC state afterwards, return value / exception -/
-def runModelV (shippedLed shippedPort : Bool) (c : Call) (s : BmcState) : BmcState × Outcome Result :=
-  (opOfV shippedLed shippedPort c).run s
+def runModelV (var : Variant) (c : Call) (s : BmcState) : BmcState × Outcome Result :=
+  (opOfV var c).run s
 def runModel (c : Call) (s : BmcState) : BmcState × Outcome Result := (opOf c).run s
 
 /-- every operation of the harness' op table has a model -/
